@@ -95,6 +95,16 @@ Theorem C04_subtracted_sample_is_system_force :
 Proof. exact subtracted_sample_is_system_force. Qed.
 Print Assumptions C04_subtracted_sample_is_system_force.
 
+(* ---- T1b.  Script entry points: `cv bias <name> bincount [cv bias <name> bin]` (= local_sample_count 0) after any history,
+   for values inside the grid, is the number of samples attributed to the bin of the current values. *)
+Theorem C04_script_count_current :
+  forall (c : @abf_cfg R) (h : list (@abf_in R)) (x : @vec R),
+    wf_cfg c -> index_ok c (bins Rops c x) = true ->
+    abf_count_current Rops c (fst (abf_run Rops c h)) x
+    = cnt_of (bins Rops c x) (attributed Rops c (trace_of Rops c h)).
+Proof. exact script_count_current. Qed.
+Print Assumptions C04_script_count_current.
+
 (* ---- T2.  The ABF force handed to variable k at the step that follows any history is
    ramp(count b) * (sum b / count b) for the current bin b (count and sum AFTER this step's accumulation),
    with ramp the documented 0 / linear / 1 function of minSamples and fullSamples; minus, for one periodic
